@@ -54,7 +54,7 @@ type ledger struct {
 	prevTerm  map[[2]uint64]uint64    // (index, term) -> term of index-1
 	votes     map[[2]uint64]uint64    // (voter, term) -> candidate
 	maxTermReported map[uint64]uint64 // voter -> highest term reported in any reply / status (across restarts)
-	ackStored map[uint64]uint64       // node -> highest index acknowledged as stored (success append replies)
+	ackStored map[uint64][2]uint64    // node -> (index, term) of the newest entry acknowledged as stored (success append replies)
 
 	// per node, since last (re)start
 	had      map[int]map[uint64]bool // node -> committed indices the node held (log or snapshot)
@@ -63,6 +63,8 @@ type ledger struct {
 	configs  map[uint64]string // index -> canonical config (from committed entries)
 
 	roundDone map[[3]uint64]uint64 // (leader, term, node) -> LastIndex of the last completed round
+
+	ghost int // node whose outputs of the current transition are discarded (-1: none)
 
 	prev []nodeSnap
 	viol []simViolation
@@ -94,7 +96,7 @@ func newLedger(w *world) *ledger {
 		prevTerm:  map[[2]uint64]uint64{},
 		votes:     map[[2]uint64]uint64{},
 		maxTermReported: map[uint64]uint64{},
-		ackStored: map[uint64]uint64{},
+		ackStored: map[uint64][2]uint64{},
 		had:       map[int]map[uint64]bool{},
 		info:      map[int]*infoRec{},
 		ldrLog:    map[int]*ldrLogRec{},
@@ -102,6 +104,7 @@ func newLedger(w *world) *ledger {
 		seenViol:  map[string]bool{},
 		oracles:   map[string]bool{},
 		roundDone: map[[3]uint64]uint64{},
+		ghost:     -1,
 	}
 	l.installTracer()
 	return l
@@ -167,6 +170,35 @@ func (l *ledger) onStart(n *simNode) {
 	delete(l.ldrLog, n.idx)
 	if n.inc > 1 {
 		l.stats.restarts++
+		l.checkRestart(n)
+	}
+}
+
+// onStartFailed: the node could not be restarted on its directory (C10).
+func (l *ledger) onStartFailed(n *simNode, err error) {
+	l.violate("crash", "restart-fails:"+simErrClass(err), fmt.Sprintf("node %d cannot restart on its storage directory: %v", n.id, err))
+}
+
+// checkRestart (C10): a restarted node reports a term and vote no older than
+// any it had acknowledged and retains every entry it acknowledged as stored.
+func (l *ledger) checkRestart(n *simNode) {
+	r := n.r
+	if r.term < l.maxTermReported[n.id] {
+		l.violate("crash", "term-older-than-acknowledged", fmt.Sprintf("node %d restarted with term %d but had reported term %d", n.id, r.term, l.maxTermReported[n.id]))
+	}
+	if c, ok := l.votes[[2]uint64{n.id, r.term}]; ok && r.votedFor != c {
+		l.violate("crash", "vote-lost", fmt.Sprintf("node %d restarted in term %d with vote %d but had granted its vote in that term to %d", n.id, r.term, r.votedFor, c))
+	}
+	if a, ok := l.ackStored[n.id]; ok {
+		held := false
+		if a[0] <= r.snaps.index {
+			held = true
+		} else if e, ok := l.entryAt(n, a[0]); ok && e.term == a[1] {
+			held = true
+		}
+		if !held {
+			l.violate("crash", "acknowledged-entry-lost", fmt.Sprintf("node %d acknowledged entry %d (term %d) as stored but after restart its log is (%d,%d] with snapshot %d", n.id, a[0], a[1], r.log.PrevIndex(), r.lastLogIndex, r.snaps.index))
+		}
 	}
 }
 
@@ -289,7 +321,7 @@ func (l *ledger) beforeDeliver(dst *simNode, c *simConn, req request, dup bool) 
 }
 
 func (l *ledger) afterDeliver(dst *simNode, c *simConn, rp *rpc, dup bool) {
-	if rp.resp == nil {
+	if rp.resp == nil || dst.idx == l.ghost {
 		return
 	}
 	r := dst.r
@@ -337,6 +369,16 @@ func (l *ledger) afterDeliver(dst *simNode, c *simConn, rp *rpc, dup bool) {
 			l.violate("nonvoter", "timeoutnow-accepted-by-nonvoter", fmt.Sprintf("node %d is not a voter in its latest config but accepted a timeout-now request of %d", dst.id, req.src))
 		}
 	case *appendReq:
+		// C10: remember what the node acknowledged as stored
+		if rp.resp.getResult() == success && rp.readErr == nil {
+			if p := simDeliverCtx.pending; p != nil && p.nEntries > 0 {
+				if e, ok := l.entryAt(dst, p.lastIdx); ok {
+					if a := l.ackStored[dst.id]; p.lastIdx >= a[0] || e.term != a[1] {
+						l.ackStored[dst.id] = [2]uint64{p.lastIdx, e.term}
+					}
+				}
+			}
+		}
 		// C06: an acknowledged append is already flushed (survives a crash now)
 		if l.oracles["durable"] && rp.resp.getResult() == success && rp.readErr == nil && !dup {
 			if p := simDeliverCtx.pending; p != nil && p.nEntries > 0 {
